@@ -125,6 +125,9 @@ def _locate_droplets_in_mask_cartesian(mask: ScalarField) -> Emulsion:
     volumes = np.asanyarray(volumes) * cell_volume
 
     # connect clusters linked viaperiodic boundary conditions
+    labels_init = labels.copy()  # the initial clusters, each connected inside the box
+    cluster = np.arange(1, num_labels + 1)  # merged cluster each initial one belongs to
+    offsets = np.zeros((num_labels, grid.num_axes), dtype=int)  # shifts in periods
     for ax in np.flatnonzero(grid.periodic):  # look at all periodic axes
         # compile list of all boundary points connected along the current axis
         low: list[list[int] | np.ndarray] = []
@@ -145,8 +148,16 @@ def _locate_droplets_in_mask_cartesian(mask: ScalarField) -> Emulsion:
                 # -> we combine the cluster into one, setting is new position as the
                 # weighted averages of the center of mass
                 v_l, v_h = volumes[i_l - 1], volumes[i_h - 1]
-                pos_l, pos_h = positions[i_l - 1], positions[i_h - 1]
-                pos_h[ax] -= grid.shape[ax]  # wrap around the upper point
+                # shift the entire upper cluster so that `h` becomes the neighbor of
+                # `l`, taking into account shifts that parts of the clusters received
+                # in previous merges
+                shift = offsets[labels_init[l] - 1] - offsets[labels_init[h] - 1]
+                shift[ax] -= 1  # wrap around the upper point
+                members = cluster == i_h
+                offsets[members] += shift
+                cluster[members] = i_l
+                pos_l = positions[i_l - 1]
+                pos_h = positions[i_h - 1] + shift * np.array(grid.shape)
                 pos = (pos_l * v_l + pos_h * v_h) / (v_l + v_h)
                 # update both clusters with the new data
                 positions[i_h - 1] = positions[i_l - 1] = pos
